@@ -192,6 +192,7 @@ package parser
 
 //@ func ParseFile
 //@   ensures result1 == nil ==> typeis(result0, *model.BinaryModel) && allocated(unbox(result0, *model.BinaryModel).PacketsMap)
+//@   ensures [C12:D6-parsefile] result1 == nil && len(unbox(result0, *model.BinaryModel).SyntaxErrors) == 0 ==> forall(p, 0, len(unbox(result0, *model.BinaryModel).Packets), forall(i, 0, len(unbox(result0, *model.BinaryModel).Packets[p].Fields), model.resolved(unbox(result0, *model.BinaryModel), unbox(result0, *model.BinaryModel).Packets[p].Fields[i])))
 
 //@ methods (*SyntaxErrorListener)
 //@   requires self != nil
